@@ -178,7 +178,7 @@ func (g *G) setup() {
 		g.randPowers()
 	}
 	if g.p.Rewards && r.P(2, 3) {
-		g.emit("fundpool %s =uusdc", rng.Pick(r, []string{"5", "7", "100", "1001", "99999", "3000000", "2000003", "6000000000000000000"}))
+		g.emit("fundpool %s =uusdc", rng.Pick(r, []string{"5", "7", "100", "1001", "99999", "3000000", "2000003", "6000000000000000000", "7000000000000000001", "30000000000000000000"}))
 	}
 	nt := 1
 	if g.p.MultiTenant {
@@ -601,7 +601,7 @@ func (g *G) oracleOp() {
 		if g.p.Powers && r.P(1, 2) {
 			g.randPowers()
 		} else if g.p.Rewards {
-			g.emit("fundpool %d =uusdc", rng.Pick(r, []int{1, 3, 5, 10, 333}))
+			g.emit("fundpool %s =uusdc", rng.Pick(r, []string{"1", "3", "5", "10", "333", "6000000000000000000", "11000000000000000000"}))
 		} else {
 			g.block()
 		}
